@@ -41,7 +41,8 @@ def payload_collapse(ob):
     """The known signing-view collision: both payloads sign identically (invalid UTF-8 / U+FFFD)."""
     def sv(p):
         return ["FFFD" if s in ("x", "y") else s for s in p]
-    return ob.get("f") == "payload" and sv(ob["e"]["payload"]) == sv(ob["e2"]["payload"])
+    return (ob.get("f") == "payload" and sv(ob["e"]["payload"]) == sv(ob["e2"]["payload"])
+            and ob["e"].get("penc", "raw") == ob["e2"].get("penc", "raw") and ob["e"]["payload"] != ob["e2"]["payload"])
 
 
 def run_family_d(prop, tier, seed, report, scratch):
